@@ -500,6 +500,8 @@ def rule_strip(chk, rid, ctx):
 
 
 def run(chk, ctx):
+    shared.rule_identity(chk, 'C01.LOAD', ctx.repo, [(r_, q_, f_) for r_, q_, f_ in ctx.repo.all_functions()
+                                                      if r_ == 'hrevolve.py' and not q_.endswith('._iterator')])
     runs = all_runs(chk, ctx)
     shared.rule_start(chk, "C01.START", runs)
     shared.rule_load(chk, "C01.LOAD", runs)
